@@ -101,9 +101,15 @@ def NeighborsSpec (d : Mat) (node : Nat) (out : List Nat) : Bool :=
 def DegreesSpec (d : Mat) (out : List Nat) : Bool :=
   out == tab d.nRow fun i => ((List.range d.nCol).filter fun j => d.get i j != 0).length
 
-/-- membership matrix: entry `(i, j)` is 1 exactly when `labels[i] = j` -/
-def MembershipSpec (labels : List Int) (d : Mat) : Bool :=
-  d.nRow == labels.length &&
+/-- number of columns of the membership matrix: `n_labels` when given, else the largest label plus one -/
+def membershipNCol (labels : List Int) (nLabels : Option Nat) : Nat :=
+  match nLabels with
+  | some k => k
+  | none => (labels.foldl max (labels.headD 0) + 1).toNat
+
+/-- membership matrix: one row per label, `n_labels` (or `max + 1`) columns, entry `(i, j)` is 1 exactly when `labels[i] = j` -/
+def MembershipSpec (labels : List Int) (nLabels : Option Nat) (d : Mat) : Bool :=
+  d.nRow == labels.length && d.nCol == membershipNCol labels nLabels &&
   rowAll d fun i => colAll d fun j =>
     d.get i j == (if labels.getD i (-1) = (j : Int) then 1 else 0)
 
